@@ -1,8 +1,10 @@
 // Harness for the thread-safe sinks (C09): real threads, a stream buffer that is deliberately
-// not thread-safe and detects concurrent entry.
-//   mt turn <o|e> <build>                       turnstile: writer A is parked inside the stream buffer,
-//                                               writer B must block before entering
-//   mt stress <o|e> <threads> <records> <seed> <build>
+// not thread-safe, buffers, and detects concurrent entry into any of its operations.
+//   mt turn <o|e> <sevA> <sevB> <w|s> <rep> <build>
+//        turnstile: writer A (severity sevA) is parked inside the stream buffer - in its write
+//        (w) or in the flush that follows (s) - writer B (severity sevB) must block before entering
+//   mt stress <o|e> <threads> <records> <sevmode> <seed> <build>
+//        sevmode 0..5: every record at that severity; 6: (5t+k) mod 6; 7: thread 0 fatal, others k mod 5
 #include "common.hpp"
 
 #include <nitro/log/attribute/message.hpp>
@@ -35,23 +37,27 @@ struct RawFmt
 using LogOut = nl::logger<Record, RawFmt, nl::sink::stdout_mt, nl::filter::null_filter>;
 using LogErr = nl::logger<Record, RawFmt, nl::sink::StdErrThreaded, nl::filter::null_filter>;
 
-// A stream buffer without any synchronisation of its own.  It appends byte by byte to a
-// preallocated array through a plain (racy) index and yields in between to widen race windows;
-// `inside` counts the threads currently in xsputn/overflow.
+// A buffering stream buffer without any synchronisation of its own.  xsputn/overflow append byte
+// by byte to a pending area through a plain (racy) index and yield in between to widen race
+// windows; sync() moves the pending bytes to the device area and then clears the pending area, the
+// way a file buffer does.  `inside` counts the threads currently in any of the three.
 class RacyBuf : public std::streambuf
 {
 public:
-    std::vector<char> data;
+    std::vector<char> data;     // the device
+    std::vector<char> pending;  // the buffer
     volatile std::size_t pos = 0;
+    volatile std::size_t ppos = 0;
     std::atomic<int> inside{ 0 };
     std::atomic<int> max_inside{ 0 };
-    std::atomic<bool> park_first{ false };
+    std::atomic<int> park_mode{ 0 }; // 0 none, 1 first write, 2 first sync
     std::atomic<bool> parked{ false };
     std::atomic<bool> release{ false };
     std::atomic<int> entries{ 0 };
+    std::atomic<int> entries_after_park{ 0 };
     unsigned yield_every = 0;
 
-    RacyBuf() : data(1 << 22)
+    RacyBuf() : data(1 << 22), pending(1 << 16)
     {
     }
 
@@ -62,36 +68,58 @@ public:
         while (now > m && !max_inside.compare_exchange_weak(m, now))
         {
         }
-        int e = entries++;
-        if (park_first && e == 0)
-        {
-            parked = true;
-            while (!release)
-                std::this_thread::sleep_for(std::chrono::milliseconds(1));
-        }
+        entries++;
+        if (parked)
+            entries_after_park++;
     }
     void leave()
     {
         --inside;
     }
+    void park()
+    {
+        parked = true;
+        while (!release)
+            std::this_thread::sleep_for(std::chrono::milliseconds(1));
+    }
     void put(char c)
     {
-        std::size_t p = pos;
-        if (p + 1 < data.size())
+        std::size_t p = ppos;
+        if (p + 1 < pending.size())
         {
-            data[p] = c;
+            pending[p] = c;
             if (yield_every && (p % yield_every) == 0)
                 std::this_thread::yield();
-            pos = p + 1;
+            ppos = p + 1;
         }
+    }
+    void drain()
+    {
+        std::size_t n = ppos, p = pos;
+        for (std::size_t i = 0; i < n && p + 1 < data.size(); i++)
+        {
+            data[p++] = pending[i];
+            if (yield_every && (i % (yield_every + 3)) == 0)
+                std::this_thread::yield();
+        }
+        pos = p;
+        if (park_mode == 2 && !parked.exchange(true))
+            park();
+        ppos = 0;
     }
 
 protected:
     std::streamsize xsputn(const char* s, std::streamsize n) override
     {
         enter();
+        bool first = true;
         for (std::streamsize i = 0; i < n; i++)
+        {
             put(s[i]);
+            if (first && park_mode == 1 && !parked.exchange(true))
+                park();
+            first = false;
+        }
         leave();
         return n;
     }
@@ -105,28 +133,61 @@ protected:
     }
     int sync() override
     {
+        enter();
+        drain();
+        leave();
         return 0;
     }
 };
 
-static std::string record_text(int t, int k)
+static int sev_of(int t, int k, int mode)
 {
-    // [t+1, k+1, payload..., 0]  (the same encoding as Drv/MT.lean)
+    if (mode <= 5)
+        return mode;
+    if (mode == 6)
+        return (5 * t + k) % 6;
+    return t == 0 ? 5 : k % 5;
+}
+
+static std::string record_text(int t, int k, int sev)
+{
+    // [t+1, k+1, sev+1, payload..., 0]  (the same encoding as Drv/MT.lean)
     std::string r;
     r.push_back(static_cast<char>(t + 1));
     r.push_back(static_cast<char>(k + 1));
+    r.push_back(static_cast<char>(sev + 1));
     r.append(static_cast<std::size_t>((t * 7 + k * 3) % 9), static_cast<char>(((t + k) % 200) + 1));
     r.push_back('\0');
     return r;
 }
 
 template <typename L>
-static void log_one(const std::string& text)
+static void log_one(int sev, const std::string& text)
 {
-    L::info() << text;
+    switch (sev)
+    {
+    case 0:
+        L::trace() << text;
+        break;
+    case 1:
+        L::debug() << text;
+        break;
+    case 2:
+        L::info() << text;
+        break;
+    case 3:
+        L::warn() << text;
+        break;
+    case 4:
+        L::error() << text;
+        break;
+    default:
+        L::fatal() << text;
+        break;
+    }
 }
 
-static std::string verdict(int n, int r, const std::string& out, bool concurrent)
+static std::string verdict(int n, int r, int mode, const std::string& out, bool concurrent)
 {
     std::vector<std::string> lines;
     std::string cur;
@@ -144,7 +205,7 @@ static std::string verdict(int n, int r, const std::string& out, bool concurrent
     std::vector<std::string> expected;
     for (int t = 0; t < n; t++)
         for (int k = 0; k < r; k++)
-            expected.push_back(record_text(t, k));
+            expected.push_back(record_text(t, k, sev_of(t, k, mode)));
     std::map<std::string, long> want, got;
     for (auto& e : expected)
         want[e]++;
@@ -184,25 +245,27 @@ static std::string handle(const std::vector<std::string>& f)
     RacyBuf buf;
     std::streambuf* old = os.rdbuf(&buf);
     std::string result;
-    auto log = [&](const std::string& s) {
+    auto log = [&](int sev, const std::string& s) {
         if (use_out)
-            log_one<LogOut>(s);
+            log_one<LogOut>(sev, s);
         else
-            log_one<LogErr>(s);
+            log_one<LogErr>(sev, s);
     };
     if (f.at(0) == "turn")
     {
-        buf.park_first = true;
-        std::thread a([&] { log(std::string("\1\1\1\0", 4)); });
+        int sevA = std::stoi(f.at(2)), sevB = std::stoi(f.at(3));
+        buf.park_mode = f.at(4) == "s" ? 2 : 1;
+        std::thread a([&] { log(sevA, record_text(0, 0, sevA)); });
         // wait until A is parked inside the stream buffer
         for (int i = 0; i < 5000 && !buf.parked; i++)
             std::this_thread::sleep_for(std::chrono::milliseconds(1));
-        std::thread b([&] { log(std::string("\2\2\2\0", 4)); });
+        bool a_parked = buf.parked;
+        std::thread b([&] { log(sevB, record_text(1, 0, sevB)); });
         // B must not get into the stream while A is inside: give it ample time to try
         bool entered = false;
         for (int i = 0; i < 300; i++)
         {
-            if (buf.entries.load() > 1 || buf.max_inside.load() > 1)
+            if (buf.entries_after_park.load() > 0 || buf.max_inside.load() > 1)
             {
                 entered = true;
                 break;
@@ -212,12 +275,13 @@ static std::string handle(const std::vector<std::string>& f)
         buf.release = true;
         a.join();
         b.join();
-        result = std::string("blocked=") + (entered ? "0" : "1") + " concurrent=" + (buf.max_inside.load() > 1 ? "1" : "0");
+        result = std::string("parked=") + (a_parked ? "1" : "0") + " blocked=" + (entered ? "0" : "1") +
+                 " concurrent=" + (buf.max_inside.load() > 1 ? "1" : "0");
     }
     else
     {
-        int n = std::stoi(f.at(2)), r = std::stoi(f.at(3));
-        unsigned seed = static_cast<unsigned>(std::stoul(f.at(4)));
+        int n = std::stoi(f.at(2)), r = std::stoi(f.at(3)), mode = std::stoi(f.at(4));
+        unsigned seed = static_cast<unsigned>(std::stoul(f.at(5)));
         buf.yield_every = 1 + seed % 3;
         std::atomic<int> go{ 0 };
         std::vector<std::thread> ts;
@@ -228,15 +292,17 @@ static std::string handle(const std::vector<std::string>& f)
                     std::this_thread::yield();
                 for (int k = 0; k < r; k++)
                 {
-                    log(record_text(t, k));
+                    int sev = sev_of(t, k, mode);
+                    log(sev, record_text(t, k, sev));
                     if ((k + t + seed) % 5 == 0)
                         std::this_thread::yield();
                 }
             });
         for (auto& t : ts)
             t.join();
+        buf.pubsync();
         std::string out(buf.data.data(), buf.pos);
-        result = verdict(n, r, out, buf.max_inside.load() > 1);
+        result = verdict(n, r, mode, out, buf.max_inside.load() > 1);
     }
     os.rdbuf(old);
     return result;
